@@ -369,6 +369,20 @@ func (st *viewSearch) descend(chosen []inlinePair, curP *Program, curR *Report, 
 	if len(allUnexp) > 1 {
 		cands = append(cands, allUnexp)
 	}
+	// a helper shared by several of the named functions: expanded in all of them at once
+	byCallee := map[string][]inlinePair{}
+	var calleeOrder []string
+	for _, c := range single {
+		if _, seen := byCallee[c.Callee]; !seen {
+			calleeOrder = append(calleeOrder, c.Callee)
+		}
+		byCallee[c.Callee] = append(byCallee[c.Callee], c)
+	}
+	for _, name := range calleeOrder {
+		if ps := byCallee[name]; len(ps) > 1 {
+			cands = append(cands, ps)
+		}
+	}
 	if len(cands) > st.budget {
 		cands = cands[:st.budget]
 	}
